@@ -29,11 +29,12 @@ VIEW_OPS = {
     "expand": ("mg.expand_dims({s}, 0)", lambda a: np.expand_dims(a, 0)),
     "ellipsis": ("{s}[...]", lambda a: a[...]),
 }
-BASES = {"flat6": (6,), "mat23": (2, 3), "sq33": (3, 3)}
+BASES = {"flat6": (6,), "mat23": (2, 3), "sq33": (3, 3), "mat23F": (2, 3), "mat32F": (3, 2), "cube": (2, 1, 3), "cubeF": (2, 1, 3)}
+F_ORDERED = {"mat23F", "mat32F", "cubeF"}  # the base owns non C-ordered memory
 
 
-def _chain_ok(shape, chain):
-    a = np.zeros(shape)
+def _chain_ok(shape, chain, fo=False):
+    a = np.zeros(shape[::-1]).T if fo else np.zeros(shape)
     try:
         for op in chain:
             b = VIEW_OPS[op][1](a)
@@ -53,12 +54,14 @@ def cases(tier):
     ops = list(VIEW_OPS)
     maxlen = 2 if quick else 3
     for base, shape in BASES.items():
+        if base == "cube" and quick:
+            continue
         chains = []
         for n in range(1, maxlen + 1):
             for ch in itertools.product(ops, repeat=n):
                 if n == 3 and (hash(ch) % 5):
                     continue
-                if _chain_ok(shape, ch):
+                if _chain_ok(shape, ch, base in F_ORDERED):
                     chains.append(list(ch))
         for i in range(0, len(chains), 8):
             out.append({"name": "%s/%d" % (base, i), "base": base, "chains": chains[i:i + 8]})
@@ -89,7 +92,9 @@ def run_case(spec, tier):
     nprog = 0
     for chain in spec["chains"]:
         for cons in consumer_sets(len(chain), quick):
-            for second in ((False,) if quick and len(cons) > 1 else (False, True)):
+          for kinds in ([("mul",) * len(cons)] + ([tuple("lin" if j == 0 else "mul" for j in range(len(cons))),
+                                                    tuple("lin" if j == len(cons) - 1 else "mul" for j in range(len(cons)))] if len(cons) <= 2 else [])):
+            for second in ((False,) if quick and (len(cons) > 1 or "lin" in kinds) else (False, True)):
                 nprog += 1
                 lines = []
                 prev = "b"
@@ -97,11 +102,16 @@ def run_case(spec, tier):
                     lines.append("v%d = %s" % (i + 1, VIEW_OPS[op][0].format(s=prev)))
                     prev = "v%d" % (i + 1)
                 for j, c in enumerate(cons):
-                    lines.append("r%d = (%s * %s * q[%d]).sum()" % (j, c, c, j))
+                    if kinds[j] == "lin":
+                        # an op whose backward hands back a VIEW of a temporary (matrix @ vector, vector through a matrix)
+                        lines.append("r%d = lin(%s, %d).sum()" % (j, c, j))
+                    else:
+                        lines.append("r%d = (%s * %s * q[%d]).sum()" % (j, c, c, j))
                 lines.append("L = " + " + ".join("r%d" % j for j in range(len(cons))))
-                bad = _run(mg, engine, shape, chain, lines, second, res)
+                fo = spec["base"] in F_ORDERED
+                bad = _run(mg, engine, shape, chain, lines, second, res, fo)
                 if bad:
-                    rp = _replay(spec, shape, chain, lines, second, nprog)
+                    rp = _replay(spec, shape, chain, lines, second, nprog, fo)
                     if rp:
                         res["status"] = common.VIOLATION
                         res["violations"].append({"signature": "view-grad:%s" % bad[:40], "replay": rp,
@@ -114,10 +124,19 @@ def run_case(spec, tier):
     return res
 
 
-def _run(mg, engine, shape, chain, lines, second, res):
+def _run(mg, engine, shape, chain, lines, second, res, fo=False):
     def body():
-        b0 = symarr("b", shape)
+        b0 = symarr("b", shape[::-1]).T if fo else symarr("b", shape)
         env = {"mg": mg, "np": np, "b": mg.Tensor(b0), "q": [symarr("q%d" % i, ()) for i in range(3)]}
+
+        def lin(c, j):
+            if c.ndim == 1:
+                return mg.matmul(np.array(symarr("W%d" % j, (2, c.shape[0])), dtype=object), c)
+            if c.ndim == 2:
+                return mg.matmul(c, np.array(symarr("w%d" % j, (c.shape[1],)), dtype=object))
+            return c * env["q"][j]
+
+        env["lin"] = lin
         for ln in lines:
             exec(ln, env)
         env["L"].backward()
@@ -184,7 +203,7 @@ def _run(mg, engine, shape, chain, lines, second, res):
     return None
 
 
-def _replay(spec, shape, chain, lines, second, k):
+def _replay(spec, shape, chain, lines, second, k, fo=False):
     src = '''import sys, itertools
 import numpy as np
 import mygrad as mg
@@ -195,7 +214,13 @@ OPS = {
  "moveaxis": lambda a: np.moveaxis(a, 0, -1), "expand": lambda a: np.expand_dims(a, 0), "ellipsis": lambda a: a[...]}
 CHAIN = %r; LINES = %r; SECOND = %r
 rng = np.random.RandomState(3)
-env = {"mg": mg, "np": np, "b": mg.Tensor(rng.rand(*%r) + 0.5), "q": [np.array(1.5), np.array(2.5), np.array(3.5)]}
+env = {"mg": mg, "np": np, "b": mg.Tensor((rng.rand(*%r[::-1]) + 0.5).T if %r else rng.rand(*%r) + 0.5), "q": [np.array(1.5), np.array(2.5), np.array(3.5)]}
+def lin(c, j):
+    r = np.random.RandomState(20 + j)
+    if c.ndim == 1: return mg.matmul(r.rand(2, c.shape[0]) + 0.5, c)
+    if c.ndim == 2: return mg.matmul(c, r.rand(c.shape[1]) + 0.5)
+    return c * env["q"][j]
+env["lin"] = lin
 bad = []
 try:
     for ln in LINES: exec(ln, env)
@@ -229,7 +254,7 @@ except Exception as e:
     bad.append("raised %%s: %%s" %% (type(e).__name__, e))
 print(bad)
 print('REPRODUCED' if bad else 'NOT-REPRODUCED'); sys.exit(1 if bad else 0)
-''' % (list(chain), list(lines), bool(second), tuple(shape))
+''' % (list(chain), list(lines), bool(second), tuple(shape), bool(fo), tuple(shape))
     path = common.write_replay(PROP, gradcase._safe("%s_%d" % (spec["name"], k)), src)
     ok, out = common.run_replay(path)
     return path if ok else None
